@@ -363,7 +363,16 @@ func (env *SpecEnv) fieldOfRef(ref Term, stT types.Type, name string) (sval, err
 		return sval{env.f.loadStruct(e.embRef(ref, stT, i), ft, env.cur), ft}, nil
 	}
 	fs := e.structFieldSort(stT, i)
-	return sval{sel(e.family(env.cur, fieldFamily(stT, i), arraySort(SInt, fs)), ref, fs), ft}, nil
+	v := sel(e.family(env.cur, fieldFamily(stT, i), arraySort(SInt, fs)), ref, fs)
+	if fs == SSlice && len(env.bound) == 0 {
+		// values read in specifications obey the same representation invariants
+		key := "specfact:" + v.S
+		if e.names[key] == 0 {
+			e.names[key] = 1
+			e.assumeAbout(and(le(intLit(0), slLen(v)), le(slLen(v), slCap(v)), le(intLit(0), slOff(v))), v)
+		}
+	}
+	return sval{v, ft}, nil
 }
 
 func (env *SpecEnv) index(x *SExpr) (sval, error) {
@@ -868,7 +877,7 @@ func (f *Frame) lastDef(b *ssa.BasicBlock, name string, st *State) (Term, types.
 func (f *Frame) loopSpec(li *loopInfo) *LoopSpec {
 	if f.depth > 0 {
 		// inlined callee: its own spec's loops
-		sp := f.e.P.Specs.Funcs[funcKey(f.fn)]
+		sp := f.e.P.specFor(f.fn)
 		return f.matchLoop(sp, li)
 	}
 	return f.matchLoop(f.e.Spec, li)
@@ -940,7 +949,7 @@ func (f *Frame) evalInvariant(cl *Clause, li *loopInfo, phiEnv map[*ssa.Phi]Term
 			}
 			return Term{}, false
 		}
-		t, ok := cl.Gen(get, st)
+		t, ok := cl.Gen(f, get, st)
 		if !ok {
 			return Term{}
 		}
